@@ -1,5 +1,5 @@
 """C07 - idle-timeout exits are invisible: never 'broken', never a lost task."""
-from .base import Prop, V, gen_knobs, gen_model, submit_op, hang_violations
+from .base import focus_hot, Prop, V, gen_knobs, gen_model, submit_op, hang_violations
 from . import execfam as X
 
 TIMEOUTS = [0.0, 0.0, 0.001, 0.01, 0.05, 0.2, 1.0]
@@ -75,6 +75,7 @@ def gen(rng, tier):
     if rng.random() < 0.5:
         kn["J"] = rng.choice([0.001, 0.05, 1.0])
         kn["p_time"] = rng.choice([0.05, 0.1, 0.3])
+    kn = focus_hot(rng, kn, threads)
     return dict(family="timeouts", knobs=kn, model=gen_model(rng), threads=threads, faults=[],
                 hold_refs=rng.random() < 0.8, end=end)
 
